@@ -470,7 +470,7 @@ def do_check(cid, tier, mutant=None, quiet=False, replay=None):
         race = race_pass(cid, cfg)
         if race and race["data_races"]:
             log("race pass: %d data race report(s) (assumption of the interleaving exploration NOT discharged; see evidence)" % race["data_races"])
-    if not mutant:
+    if not mutant and not replay:
         write_evidence(cid, cfg, tier, seed, m, time.time() - t0, degraded, failures, len(unmatched), race)
     if not quiet:
         log("%s tier=%s executions=%d transitions=%d states=%d outcomes=%d exhaustive=%s wall=%.1fs" % (
